@@ -49,7 +49,13 @@ namespace BitSerializer::Detail
 		else
 		{
 			outTimestamp.Seconds = std::chrono::duration_cast<std::chrono::seconds>(epochTime).count();
-			const auto leftTime = epochTime - std::chrono::duration_cast<TDuration>(std::chrono::seconds(outTimestamp.Seconds));
+			auto leftTime = epochTime - std::chrono::duration_cast<TDuration>(std::chrono::seconds(outTimestamp.Seconds));
+			// Nanoseconds must be in range 0..999999999: seconds are rounded down (not towards zero) for negative time
+			if (leftTime.count() < 0)
+			{
+				--outTimestamp.Seconds;
+				leftTime += std::chrono::duration_cast<TDuration>(std::chrono::seconds(1));
+			}
 			outTimestamp.Nanoseconds = static_cast<int32_t>(std::chrono::duration_cast<std::chrono::nanoseconds>(leftTime).count());
 		}
 	}
@@ -57,9 +63,18 @@ namespace BitSerializer::Detail
 	template <typename TClock, typename TDuration>
 	void To(const CBinTimestamp& timestamp, std::chrono::time_point<TClock, TDuration>& outTimePoint)
 	{
+		// Negative time with fractions is represented as rounded down seconds plus positive nanoseconds, convert it to the sum
+		// of values with the same sign (seconds rounded towards zero) to avoid overflow near the lowest value of the target type
+		auto seconds = timestamp.Seconds;
+		auto nanoseconds = static_cast<int64_t>(timestamp.Nanoseconds);
+		if (seconds < 0 && nanoseconds > 0)
+		{
+			++seconds;
+			nanoseconds -= 1000000000;
+		}
 		outTimePoint = std::chrono::time_point<TClock, TDuration>(
-			Convert::Detail::SafeDurationCast<TDuration>(std::chrono::seconds(timestamp.Seconds)));
-		if (timestamp.Nanoseconds)
+			Convert::Detail::SafeDurationCast<TDuration>(std::chrono::seconds(seconds)));
+		if (nanoseconds)
 		{
 			// When duration period is greater than seconds (allowed rounding only seconds fractions)
 			if constexpr (std::ratio_greater_v<typename TDuration::period, std::chrono::seconds::period>)
@@ -69,7 +84,7 @@ namespace BitSerializer::Detail
 			else
 			{
 				// Only seconds fractions can be rounded to target type
-				auto leftTime = std::chrono::round<TDuration>(std::chrono::nanoseconds(timestamp.Nanoseconds));
+				auto leftTime = std::chrono::round<TDuration>(std::chrono::nanoseconds(nanoseconds));
 				Convert::Detail::SafeAddDuration(outTimePoint, leftTime);
 			}
 		}
@@ -89,7 +104,13 @@ namespace BitSerializer::Detail
 		else
 		{
 			outTimestamp.Seconds = std::chrono::duration_cast<std::chrono::seconds>(duration).count();
-			const auto leftTime = duration - std::chrono::duration_cast<std::chrono::duration<TRep, TPeriod>>(std::chrono::seconds(outTimestamp.Seconds));
+			auto leftTime = duration - std::chrono::duration_cast<std::chrono::duration<TRep, TPeriod>>(std::chrono::seconds(outTimestamp.Seconds));
+			// Nanoseconds must be in range 0..999999999: seconds are rounded down (not towards zero) for negative duration
+			if (leftTime.count() < 0)
+			{
+				--outTimestamp.Seconds;
+				leftTime += std::chrono::duration_cast<std::chrono::duration<TRep, TPeriod>>(std::chrono::seconds(1));
+			}
 			outTimestamp.Nanoseconds = static_cast<int32_t>(std::chrono::duration_cast<std::chrono::nanoseconds>(leftTime).count());
 		}
 	}
@@ -99,8 +120,16 @@ namespace BitSerializer::Detail
 	{
 		using TDuration = std::chrono::duration<TRep, TPeriod>;
 
-		outDuration = Convert::Detail::SafeDurationCast<TDuration>(std::chrono::seconds(timestamp.Seconds));
-		if (timestamp.Nanoseconds)
+		// See the comment in the conversion to time_point
+		auto seconds = timestamp.Seconds;
+		auto nanoseconds = static_cast<int64_t>(timestamp.Nanoseconds);
+		if (seconds < 0 && nanoseconds > 0)
+		{
+			++seconds;
+			nanoseconds -= 1000000000;
+		}
+		outDuration = Convert::Detail::SafeDurationCast<TDuration>(std::chrono::seconds(seconds));
+		if (nanoseconds)
 		{
 			// When duration period is greater than seconds (allowed rounding only seconds fractions)
 			if constexpr (std::ratio_greater_v<TPeriod, std::chrono::seconds::period>)
@@ -110,7 +139,7 @@ namespace BitSerializer::Detail
 			else
 			{
 				// Only seconds fractions can be rounded to target type
-				Convert::Detail::SafeAddDuration(outDuration, std::chrono::round<TDuration>(std::chrono::nanoseconds(timestamp.Nanoseconds)));
+				Convert::Detail::SafeAddDuration(outDuration, std::chrono::round<TDuration>(std::chrono::nanoseconds(nanoseconds)));
 			}
 		}
 	}
